@@ -7,7 +7,7 @@ from src.compilers.base import BaseCompiler
 class JavaCompiler(BaseCompiler):
     # Match (example.groovy):(error message until empty line)
     ERROR_REGEX = re.compile(
-        r'([a-zA-Z0-9\/_]+.java):(\d+:[ ]+error:[ ]+.*)(.*?(?=\n{1,}))')
+        r'([^\s:]+.java):(\d+:[ ]+error:[ ]+.*)(.*?(?=\n{1,}))')
 
     CRASH_REGEX = re.compile(r'(java\.lang.*)\n(.*)')
 
